@@ -10,7 +10,8 @@ from fractions import Fraction
 from pathlib import Path
 
 ROOT = Path(__file__).resolve().parent.parent
-EVID = ROOT / "evidence"
+REPO = os.environ.get("VERIF_REPO", "/repo")
+EVID = Path(os.environ["VERIF_EVID_DIR"]) if os.environ.get("VERIF_EVID_DIR") else ROOT / "evidence"
 REPLAYS = ROOT / "replays"
 WORK = ROOT / ".work"
 KF_FILE = ROOT / "known_findings.json"
@@ -41,7 +42,8 @@ def sha256_of(path):
     return h.hexdigest()
 
 
-def repo_file_hashes(rel_files, repo="/repo"):
+def repo_file_hashes(rel_files, repo=None):
+    repo = repo or REPO
     out = {}
     for r in rel_files:
         p = Path(repo) / r
